@@ -806,7 +806,15 @@ pub fn reflaw(cell: &Cell) -> Option<RefLaw> {
                 l
             });
         }
-        Fam::Binomial => binomial_law(cell.ip[0], g(0)),
+        Fam::Binomial => {
+            if crate::families::binomial_uses_complement(cell) {
+                let mut l = binomial_law(cell.ip[0], 1.0 - g(0));
+                l.note = format!("law of n - X (outputs near n = {} are not representable as f64); {}", cell.ip[0], l.note);
+                l
+            } else {
+                binomial_law(cell.ip[0], g(0))
+            }
+        }
         Fam::Poisson => poisson_law(g(0)),
         Fam::Geometric => geometric_law(g(0)),
         Fam::StandardGeometric => geometric_law(0.5),
